@@ -12,9 +12,35 @@ fn flag_store(a: &AtomicBool, v: bool, o: Ordering)
 fn flag_load(a: &AtomicBool, o: Ordering) -> (r: bool)
     ensures w_flag_loaded(a, r),
 { a.load(o) }
+pub uninterp spec fn w_flag_swapped(a: &AtomicBool, new: bool, prev: bool) -> bool;
+#[verifier::external_body]
+fn flag_swap(a: &AtomicBool, v: bool, o: Ordering) -> (r: bool)
+    ensures w_flag_swapped(a, v, r),
+{ a.swap(v, o) }
 impl<'l, Data> EventLoop<'l, Data> {
     pub closed spec fn stop_flag(&self) -> &AtomicBool { &self.signals.stop }
+    pub closed spec fn ready_flag(&self) -> &AtomicBool { &self.signals.future_ready }
 }
+// ---- block_on: the future is polled through a stand-in (rule R21: `Pin<&mut Fut>::as_mut().poll(cx)`; Pin is outside
+// what Verus accepts). ASSUMED: nothing but the witnesses of what the poll returned; the may-call predicate is the device
+// of DESIGN 2.12 for "poll only after ..".
+#[verifier::external_type_specification] #[verifier::external_body]
+pub struct ExContext<'a>(std::task::Context<'a>);
+#[verifier::external_type_specification] #[verifier::accept_recursive_types(T)]
+pub struct ExTaskPoll<T>(std::task::Poll<T>);
+#[verifier::external_trait_specification]
+pub trait ExFuture {
+    type ExternalTraitSpecificationFor: std::future::Future;
+    type Output;
+}
+pub uninterp spec fn may_poll_future() -> bool;
+pub uninterp spec fn w_future_ready<R>(v: R) -> bool;
+pub uninterp spec fn w_future_polled() -> bool;
+#[verifier::external_body]
+fn poll_pinned<Fut: std::future::Future>(f: &mut Fut, cx: &mut std::task::Context<'_>) -> (r: std::task::Poll<Fut::Output>)
+    requires may_poll_future(),
+    ensures w_future_polled(), r matches std::task::Poll::Ready(v) ==> w_future_ready(v),
+{ unimplemented!() }
 impl LoopSignal {
     pub closed spec fn stop_flag(&self) -> &AtomicBool { &self.signal.stop }
     pub closed spec fn note(&self) -> crate::sys::Notifier { self.notifier }
@@ -58,3 +84,72 @@ impl LoopSignal {
             w_flag_loaded(old(self).stop_flag(), true),
 //@ enditem
 //@ close
+
+impl<'l, Data> EventLoop<'l, Data> {
+//@ slice src/loop_logic.rs / impl EventLoop<'l, Data> / fn block_on :: after <<let mut context = Context::from_waker(&waker);>> props=C11 name=EventLoop::block_on::loop
+//@ rw R19 * <<self.signals.stop.store(>> => <<flag_store(&self.signals.stop, >>
+//@ rw R19 * <<self.signals.stop.load(>> => <<flag_load(&self.signals.stop, >>
+//@ rw R19 * <<self.signals.future_ready.store(>> => <<flag_store(&self.signals.future_ready, >>
+//@ rw R19 * <<self.signals.future_ready.swap(>> => <<flag_swap(&self.signals.future_ready, >>
+//@ rw R21 1 <<future.as_mut().poll(&mut context)>> => <<poll_pinned(&mut *future, &mut context)>>
+//@ rw R21 1 <<if let Poll::Ready(result) =>> => <<if let std::task::Poll::Ready(result) =>>
+//@ sig
+    /// S1 slice of EventLoop::block_on: everything after the construction of the waker and its Context (nested `impl Wake`,
+    /// `pin_mut!`, `Waker::from(Arc<..>)` are outside what Verus accepts). Free variables `future` (pinned to the stack in
+    /// the real code: R21), `context`, `data`, `cb` become parameters; R19: atomics through identity stand-ins.
+    #[verifier::exec_allows_no_decreases_clause]
+    fn block_on_loop<R, Fut: std::future::Future<Output = R>, C: FnMut(&mut Data)>(&mut self, future: &mut Fut, mut context: std::task::Context<'_>, data: &mut Data, mut cb: C) -> (r: crate::Result<Option<R>>)
+//@ spec
+        requires
+            forall|d: &mut Data| #[trigger] call_requires(cb, (d,)),
+            // C11 (may-call side): the future may be polled ONLY by an iteration whose swap found the ready flag set -- the
+            // swap clears it BEFORE the poll, so a wake that arrives while the future is being polled sets it again and
+            // is seen by the next iteration (never overwritten)
+            may_poll_future() <==> w_flag_swapped(old(self).ready_flag(), false, true),
+        ensures
+            // C11: polled initially: the ready flag is raised before the first iteration
+            w_flag_stored(old(self).ready_flag(), true),
+            // Some(v) exactly from a poll that returned Ready(v); None only after the stop flag was read as raised
+            r matches Ok(Some(v)) ==> w_future_ready(v),
+            r matches Ok(None) ==> w_flag_loaded(old(self).stop_flag(), true),
+//@ loop 1
+        invariant_except_break
+            output is None,
+        invariant
+            forall|d: &mut Data| #[trigger] call_requires(cb, (d,)),
+            self.stop_flag() == old(self).stop_flag(), self.ready_flag() == old(self).ready_flag(),
+            may_poll_future() <==> w_flag_swapped(old(self).ready_flag(), false, true),
+            w_flag_stored(old(self).ready_flag(), true),
+        ensures
+            output matches Some(v) ==> w_future_ready(v),
+            output is None ==> w_flag_loaded(old(self).stop_flag(), true),
+//@ endslice
+}
+
+impl LoopSignal {
+    pub closed spec fn ready_flag(&self) -> &AtomicBool { &self.signal.future_ready }
+//@ slice src/loop_logic.rs / impl EventLoop<'l, Data> / fn block_on :: stmts <<self.0.signal.future_ready.store(true, Ordering::Release);>>#1/2 .. <<self.0.notifier.notify().ok();>>#1/2 props=C11 name=EventLoop::block_on::EventLoopWaker::wake
+//@ rw R16 * <<self.0.notifier>> => <<slf.notifier>>
+//@ rw R19 * <<self.0.signal.future_ready.store(>> => <<flag_store(&slf.signal.future_ready, >>
+//@ sig
+    /// S1 slice of EventLoop::block_on: the body of the nested `<EventLoopWaker as Wake>::wake` (what waking the blocked
+    /// future's waker does, from any thread). R16: the receiver `self: Arc<EventLoopWaker>` -- a newtype around LoopSignal
+    /// declared inside the function -- becomes `slf: &LoopSignal` (`self.0.` is `slf.`); R19 as above.
+    fn block_on_waker_wake(slf: &LoopSignal)
+//@ spec
+        ensures
+            // C11: a wake raises the ready flag (so the next iteration polls the future) and notifies the poller (so a wait
+            // in progress -- or the next one -- returns)
+            w_flag_stored(slf.ready_flag(), true), slf.note().w_notified(),
+//@ endslice
+//@ slice src/loop_logic.rs / impl EventLoop<'l, Data> / fn block_on :: stmts <<self.0.signal.future_ready.store(true, Ordering::Release);>>#2/2 .. <<self.0.notifier.notify().ok();>>#2/2 props=C11 name=EventLoop::block_on::EventLoopWaker::wake_by_ref
+//@ rw R16 * <<self.0.notifier>> => <<slf.notifier>>
+//@ rw R19 * <<self.0.signal.future_ready.store(>> => <<flag_store(&slf.signal.future_ready, >>
+//@ sig
+    /// S1 slice: the body of the nested `<EventLoopWaker as Wake>::wake_by_ref`, as above.
+    fn block_on_waker_wake_by_ref(slf: &LoopSignal)
+//@ spec
+        ensures
+            w_flag_stored(slf.ready_flag(), true), slf.note().w_notified(),
+//@ endslice
+}
